@@ -142,10 +142,29 @@ SEQ_BYTES = (b"", b"\x00", b"\xfe", b"\x05", b"\xfe\x05", b"\x05\x05", b"\x02\xf
              b"\xfe\xfe\xfe\x02", b"\xff\xff\xff\xff", b"\x01\x01\x01\x01\x01")
 
 
+def _bad_arg(tag):
+    """Inadmissible arguments are named by JSON-able tags: ['float', n] -> float(n), 'none' -> None, ['str', s] -> s."""
+    if tag == "none":
+        return None
+    kind, v = tag
+    return float(v) if kind == "float" else str(v)
+
+
+BAD_ATOMS = [("xe", ("float", n)) for n in (0, 252, 253, 300, P2, P3, P4 - 1)] + [("xe", "none"), ("xe", ("str", "300")), ("xd", "none"), ("xd", ("str", "\x05")), ("xd", ("float", 5))]
+
+
 def check_sequence(seq):
     """seq: list of ('e', n) / ('d', bytes).  Every call's result is compared with the reference."""
     enc, dec = _codec()
     for i, (kind, arg) in enumerate(seq):
+        if kind in ("xe", "xd"):
+            # a call the documented signature does not admit (float / None / str argument): whatever it does - raise or
+            # answer - is not judged, but it must not leave anything behind that changes a later, valid call
+            try:
+                (enc if kind == "xe" else dec)(_bad_arg(arg))
+            except Exception:  # noqa: BLE001
+                pass
+            continue
         if kind == "e":
             got, exp = enc(int(arg)), enc_number(int(arg))
         else:
@@ -195,15 +214,24 @@ def _seq_cases(depth):
     atoms = [("e", n) for n in SEQ_NUMS] + [("d", b) for b in SEQ_BYTES]
     for d in range(2, depth + 1):
         yield from itertools.product(atoms, repeat=d)
+    # error paths: valid call, inadmissible call, valid call (and inadmissible first)
+    for bad in BAD_ATOMS:
+        for a in atoms:
+            yield (bad, a)
+            for b in atoms:
+                yield (a, bad, b)
 
 
 def _seq_shard(cases):
     loader.install_shims()
     bad = []
+    prev = []
     for seq in cases:
         w = check_sequence(seq)
         if w and len(bad) < 3:
-            bad.append((list(seq), w))
+            # what an earlier sequence of this process left behind may be part of the cause: keep the context
+            bad.append((list(seq), w, [list(q) for q in prev[-3:]]))
+        prev.append(seq)
     return len(cases), bad
 
 
@@ -281,8 +309,9 @@ def run(tier, seed):
     n_seq = sum(r[0] for r in res)
     evals += n_seq
     for _, bad in res:
-        for seq, what in bad:
-            violations.append({"key": "sequence:" + ",".join(k for k, _ in seq), "what": what, "case": {"kind": "sequence", "value": [[k, a] for k, a in seq]}})
+        for seq, what, prev in bad:
+            alts = [{"kind": "sequence", "value": [[k, a] for q in prev[-n:] for k, a in q] + [[k, a] for k, a in seq]} for n in (1, 3) if prev]
+            violations.append({"key": "sequence:" + ",".join(k for k, _ in seq), "what": what, "case": {"kind": "sequence", "value": [[k, a] for k, a in seq]}, "alt_cases": alts})
 
     n_forms, form_bad = argument_forms()
     evals += n_forms
@@ -306,7 +335,7 @@ def run(tier, seed):
             "division reference (no 0x00/0xFF, 0xFE filler exactly above the significant bytes), decode(encode(n))==n, "
             "and decode of every prefix of length k>=significant bytes == n.  decode side: every byte string of "
             "length 0..3 (16,843,009) plus length 4/5 strings with byte 3 over all 256 values and bytes 1-2 over the "
-            "reduced alphabet, compared with the positional formula.  call_sequences: every ordered sequence of 2..3/4 calls over 13 boundary integers and 12 byte strings (hidden-state detection).  Non-trivial = all but the empty string."
+            "reduced alphabet, compared with the positional formula.  call_sequences: every ordered sequence of 2..3/4 calls over 13 boundary integers and 12 byte strings (hidden-state detection), plus every (valid, inadmissible, valid) triple with 12 inadmissible calls (float / None / str arguments: not judged themselves, but they must leave nothing behind).  Non-trivial = all but the empty string."
         ),
         "samples": samples,
     }
